@@ -126,6 +126,8 @@ def check_category(name, pattern, words, others, ci=True):
         for f in forms:
             if not full_match(pattern, f):
                 probs.append(f'{name} pattern {pattern!r} does not classify configured word {f!r}')
+    if not words:
+        return probs        # an empty category that keeps its rule: what a pattern over no words matches is not judged
     for n in near_misses(words, others):
         if any_match(pattern, n):
             probs.append(f'{name} pattern {pattern!r} classifies {n!r}, which is not a configured {name}')
@@ -426,6 +428,8 @@ def shard(acc, tier, idx, n):
     vocabs += [(mn, mac, regs, pre) for regs in subsets(REGISTERS, 2 + k) for pre in subsets(PREDEFINED, 1 + k)
                for mn in (('ld',), ('ld', 'mov.b')) for mac in ((), ('mac',))]
     vocabs += [(mn, mac, (), ()) for mn in subsets(MNEMONICS, 1, 1) for mac in subsets(MACROS, 2)]
+    # a definition without any instruction (a data-only assembler): the instruction patterns are still filled in
+    vocabs += [((), (), regs, pre) for regs in ((), ('a',), ('a', 'x_1')) for pre in ((), ('KC',))]
     full = []
     if not q:
         # thorough: the full product as well, judged on well-formedness, placeholders and the category patterns
